@@ -95,6 +95,8 @@ def rule_returns(ctx):
 
 
 def run(ctx):
+    from ..rules import extra as _X4
+    _X4.rule_accidentals_repeat(ctx)
     _, bpc, steps = T.pitch_tables(ctx)
     T.key_tables(ctx, bpc)
     T.interval_tables(ctx, bpc, steps)
